@@ -175,7 +175,8 @@ def _then(draw, npoints: int):
         return None
     return {"fixed": draw(st.lists(st.integers(0, npoints - 1), max_size=2, unique=True)),
             "fixed_inner": draw(st.lists(st.integers(0, 63), min_size=1, max_size=2, unique=True)),
-            "mode": draw(st.sampled_from(MODES)), "n": draw(st.one_of(st.integers(1, 3), st.integers(1, 200)))}
+            "mode": draw(st.sampled_from(MODES)), "container": draw(st.sampled_from(CONTAINERS)),
+            "n": draw(st.one_of(st.integers(1, 3), st.integers(1, 200)))}
 
 
 @st.composite
@@ -204,10 +205,10 @@ def _fixing(draw, npoints: int):
     more = [
         {"fixed": draw(st.lists(st.integers(0, npoints - 1), max_size=2, unique=True)),
          "fixed_inner": draw(st.lists(st.integers(0, 63), max_size=1)),
-         "mode": draw(st.sampled_from(MODES))}
+         "mode": draw(st.sampled_from(MODES)), "container": draw(st.sampled_from(CONTAINERS))}
         for _ in range(draw(st.sampled_from([0, 0, 1, 2])))
     ]
-    return {"fixed": fixed, "fixed_inner": inner, "mode": mode, "more": more}
+    return {"fixed": fixed, "fixed_inner": inner, "mode": mode, "container": draw(st.sampled_from(CONTAINERS)), "more": more}
 
 
 MODES = ["index", "position", "both", "position-array", "both-reversed"]
@@ -218,12 +219,12 @@ def resolve_calls(case, interior: List[int], modulo=None, stage: int = 1) -> Lis
     out = []
     for call in ([case, *case.get("more", [])] if stage == 1 else [case["then"]] if case.get("then") else []):
         ids = call["fixed"] if modulo is None else sorted({f % modulo for f in call["fixed"]})
-        out.append([call["mode"], resolve_fixed(ids, call.get("fixed_inner", []), interior)])
+        out.append([call["mode"], resolve_fixed(ids, call.get("fixed_inner", []), interior), call.get("container", "list")])
     return out
 
 
 def union(calls) -> List[int]:
-    return sorted(set(itertools.chain.from_iterable(ids for _, ids in calls)))
+    return sorted(set(itertools.chain.from_iterable(call[1] for call in calls)))
 
 
 def resolve_fixed(anywhere: List[int], selectors: List[int], interior: List[int]) -> List[int]:
@@ -310,6 +311,9 @@ def mesh_case(draw, regular: bool = False):
         "amp": amp, "jit": [draw(_unit) for _ in range(3 * ninner)] if amp else [],
         "order": order, "drop": min(drop, ncell - 1), "rots": [draw(st.integers(0, 23)) for _ in range(ncell)],
         "place": draw(_place()), "history": draw(_history()),
+        # vertices projected to a named surface (an attribute smoothing has nothing to do with)
+        "project": [{"node": draw(st.integers(0, 63)), "how": draw(st.sampled_from(["corner", "side"]))}
+                    for _ in range(draw(st.sampled_from([0, 0, 1, 2])))],
     }
     case.update(draw(_fixing(nn)))
     case["n"] = 200 if regular else draw(_iters)
@@ -497,17 +501,40 @@ def call_budget(topo: Topo, n: int) -> int:
     return 4 * (n * per_sweep + 60 * len(topo.cells) + 200)
 
 
+CONTAINERS = ["list", "tuple", "set", "array", "range-or-list", "generator", "iterator", "map"]
+
+
+def as_iterable(ids: List[int], container: str):
+    """the indexes in one of the forms an Iterable[int] parameter accepts"""
+    ids = [int(i) for i in ids]
+    if container == "tuple":
+        return tuple(ids)
+    if container == "set":
+        return set(ids)
+    if container == "array":
+        return np.array(ids, dtype=int)
+    if container == "range-or-list":
+        return range(ids[0], ids[-1] + 1) if ids and ids == list(range(ids[0], ids[-1] + 1)) else list(ids)
+    if container == "generator":
+        return (i for i in ids)
+    if container == "iterator":
+        return iter(ids)
+    if container == "map":
+        return map(int, ids)
+    return list(ids)
+
+
 def _fix(smoother, calls, positions_lib, to_lib=None):
     """replays a drawn sequence of fix_indexes / fix_points calls (positions as the user reads them at that moment)"""
-    for mode, ids in calls:
+    for mode, ids, container in calls:
         ids = list(ids) if to_lib is None else [to_lib[p] for p in ids if p in to_lib]
         by_position = [positions_lib[i].tolist() for i in ids]
         if mode in ("index", "both"):
-            smoother.fix_indexes(list(ids))
+            smoother.fix_indexes(as_iterable(ids, container))
         if mode in ("position", "both", "both-reversed"):
             smoother.fix_points(by_position)
         if mode == "both-reversed":
-            smoother.fix_indexes(list(ids))
+            smoother.fix_indexes(as_iterable(ids, container))
         if mode == "position-array":
             smoother.fix_points(np.array(by_position).reshape(-1, 3))
 
@@ -542,8 +569,18 @@ def run_mesh(case, pos, cells, stages, n, facts, topo, history=None, n2=None):
     smoother, node -> vertex index, positions between the stages)"""
     try:
         mesh = cb.Mesh()
-        for c in cells:
-            mesh.add(cb.Loft(cb.Face(pos[c[:4]]), cb.Face(pos[c[4:]])))
+        ops = [cb.Loft(cb.Face(pos[c[:4]]), cb.Face(pos[c[4:]])) for c in cells]
+        for spec in case.get("project", []):
+            pool = topo.interior or sorted(set(itertools.chain.from_iterable(cells)))
+            node = pool[spec["node"] % len(pool)]
+            k = next(i for i, c in enumerate(cells) if node in c)
+            corner = cells[k].index(node)
+            if spec["how"] == "corner":
+                ops[k].project_corner(corner, "surface")
+            else:
+                ops[k].project_side("bottom" if corner < 4 else "top", "surface", points=True)
+        for op in ops:
+            mesh.add(op)
         mesh.assemble()
         vpos = np.array([v.position for v in mesh.vertices])
     except Exception as ex:
@@ -661,7 +698,7 @@ def effective_fixed(calls, positions: np.ndarray, topo: Topo):
     """points the user fixed: the listed ones, and for calls by position every point at (within TOL of) that place.
     None when a point sits so close to TOL from a given place that rounding decides"""
     out: Set[int] = set()
-    for mode, ids in calls:
+    for mode, ids, _ in calls:
         ids = [p for p in ids if topo.nbrs.get(p)]
         out |= set(ids)
         if mode == "index":
@@ -684,7 +721,7 @@ def common(case, topo: Topo, stages, initial, between, after, before, size, exte
         ctx.label("point-at-TOL-from-a-fixed-place(not judged)")
         return
     fixed = fixed1 | fixed2
-    facts["calls"] = "+".join(mode for mode, _ in stages[0]) + ("|" + stages[1][0][0] if staged else "")
+    facts["calls"] = "+".join(call[0] for call in stages[0]) + ("|" + stages[1][0][0] if staged else "")
     free = [p for p in topo.interior if p not in fixed]
     # where every static point has to be: boundary and first-stage points where they started, second-stage points
     # where they were when the user fixed them
@@ -722,7 +759,10 @@ def common(case, topo: Topo, stages, initial, between, after, before, size, exte
         ctx.label("irregular-valence")
     if fixed - topo.boundary:
         ctx.label("fixed-interior:" + case["mode"])
-    inner_sets = [set(ids) - topo.boundary for _, ids in stages[0]]
+    for mode, ids, container in [*stages[0], *(stages[1] if staged else [])]:
+        if mode != "position" and mode != "position-array" and set(ids) - topo.boundary:
+            ctx.label("interior-fixed-by-index-given-as:" + container)
+    inner_sets = [set(call[1]) - topo.boundary for call in stages[0]]
     ctx.label(f"fixing-calls={len(stages[0])}")
     if any(inner_sets[i] - inner_sets[j] for j in range(len(inner_sets)) for i in range(j)):
         ctx.label("later-call-omits-earlier-interior-point")
@@ -859,6 +899,8 @@ def check_mesh(case, ctx: Ctx) -> None:
     common(case, topo, fixed, pos, between, after, before, size, extent, lattice, ctx, facts)
     ctx.label(f"dims={'x'.join(map(str, case['dims']))}", f"dropped={case['drop']}")
     ctx.label(f"smooth-calls={len(facts['calls_to_smooth'])}")
+    if case.get("project") and topo.interior:
+        ctx.label("interior-vertex-projected-to-a-surface")
     if "backport" in facts["between"]:
         ctx.label("mesh.backport-between-calls")
 
